@@ -116,3 +116,23 @@ def mc_core_vacuity(chk, family, L=2, LX=1):
                         'antecedents_met': sorted(k for k, v in met.items() if v)})
     if missing:
         raise MachineryError(f'theorems of MC_Core would be checked vacuously for family {family}: antecedents never met: {missing}')
+
+
+def prove_pos_machine(chk):
+    """Apalache on spec/PosMachine.tla: 0 <= pos <= len is an *inductive* invariant of the documented position movements
+    (so it holds for streams of any length), plus a negative control that must be refuted.  (That every step of the Ref
+    machine is one of those movements is checked by TLC in MC_Ref*.cfg, property RefinesPosMachine.)  If the tool cannot
+    run at all this is noted in the evidence - the bounded TLC checks of the same invariant stand on their own."""
+    from harness import tlc
+    from harness.tlc import MachineryError
+    base = tlc.apalache('PosMachine.tla', 'Init', 'PosValid', 0, chk.wd)
+    step = tlc.apalache('PosMachine.tla', 'IndInit', 'PosValid', 1, chk.wd)
+    ctrl = tlc.apalache('PosMachine.tla', 'IndInit', 'TooStrong', 1, chk.wd)
+    chk.extra_cov['apalache_pos_machine'] = {'Init => PosValid': base, 'PosValid /\\ Next => PosValid\'': step,
+                                             'negative control TooStrong': ctrl}
+    if 'violated' in (base, step):
+        raise MachineryError(f'PosMachine.tla: PosValid is not inductive (base: {base}, step: {step})')
+    if ctrl == 'ok':
+        raise MachineryError('PosMachine.tla: the negative control was not refuted by Apalache')
+    if not (base == step == 'ok' and ctrl == 'violated'):
+        chk.notes.append(f'Apalache could not be run on PosMachine.tla ({base} / {step} / {ctrl}); the inductive proof is missing from this run')
